@@ -48,6 +48,9 @@ from solvor.types import Result
 
 __all__ = ["articulation_points", "bridges"]
 
+# Marks a DFS root in the parent map (None may be a node label)
+_NO_PARENT = object()
+
 
 def articulation_points[S](
     nodes: Iterable[S],
@@ -73,7 +76,7 @@ def articulation_points[S](
                 adj[w].add(v)
     discovery: dict[S, int] = {}
     low: dict[S, int] = {}
-    parent: dict[S, S | None] = {}
+    parent: dict[S, object] = {}
     ap: set[S] = set()
     time = 0
     iterations = 0
@@ -82,7 +85,7 @@ def articulation_points[S](
     for root in node_list:
         if root in discovery:
             continue
-        parent[root] = None
+        parent[root] = _NO_PARENT
         discovery[root] = low[root] = time
         time += 1
         iterations += 1
@@ -111,7 +114,7 @@ def articulation_points[S](
                     # u is an articulation point if:
                     # 1. u is root and has 2+ children, OR
                     # 2. u is not root and low[v] >= discovery[u]
-                    if parent[u] is None:
+                    if parent[u] is _NO_PARENT:
                         root_children += 1
                         if root_children >= 2:
                             ap.add(u)
@@ -146,7 +149,7 @@ def bridges[S](
                 adj[w].add(v)
     discovery: dict[S, int] = {}
     low: dict[S, int] = {}
-    parent: dict[S, S | None] = {}
+    parent: dict[S, object] = {}
     bridge_list: list[tuple[S, S]] = []
     time = 0
     iterations = 0
@@ -155,7 +158,7 @@ def bridges[S](
     for root in node_list:
         if root in discovery:
             continue
-        parent[root] = None
+        parent[root] = _NO_PARENT
         discovery[root] = low[root] = time
         time += 1
         iterations += 1
